@@ -178,6 +178,87 @@ def shape_of(m, t):
     return s + 'prim'
 
 
+def swift_qualified_names_declared(res, m, text, fn, cfg, replay):
+    """every Namespace.Name in code must be declared in that namespace"""
+    alias_names = {(d.ns, d.name) for d in m.defs('alias')}
+    declared = {}
+    for ns2 in m.namespaces:
+        names = set()
+        for d in types_with_fields(m, ns2):
+            names.add(d.name)
+            names.add(d.name + 'Serializer')
+        declared[pascal(ns2.name)] = names
+    for nscls2, name in set(re.findall(r'\b([A-Z]\w*)\.([A-Z]\w*)\b', text)):
+        res.count('qualified_names_resolved')
+        if nscls2 in declared and name not in declared[nscls2]:
+            is_alias = any(pascal(a[0]) == nscls2 and (name == a[1] or name == a[1] + 'Serializer')
+                           for a in alias_names)
+            res.violation({'kind': 'undeclared_user_type_name', 'backend': cfg,
+                           'what': 'alias_name' if is_alias else 'other'},
+                          {'file': fn, 'name': '%s.%s' % (nscls2, name)}, replay)
+
+
+def swift_funcs(code):
+    """(name, [parameter labels], body) of every `public func` in comment-free code."""
+    out = []
+    for mm in re.finditer(r'public func (\w+)\(', code):
+        end = _match_paren(code, mm.end() - 1)
+        params = code[mm.end():end - 1]
+        labels, depth, cur = [], 0, ''
+        for ch in params + ',':
+            if ch in '(<[':
+                depth += 1
+            elif ch in ')>]':
+                depth -= 1
+            if ch == ',' and depth == 0:
+                if cur.strip():
+                    labels.append(cur.strip().split(':')[0].strip())
+                cur = ''
+            else:
+                cur += ch
+        i = code.find('{', end)
+        depth, j = 0, i
+        while 0 <= j < len(code):
+            if code[j] == '{':
+                depth += 1
+            elif code[j] == '}':
+                depth -= 1
+                if depth == 0:
+                    break
+            j += 1
+        out.append((mm.group(1), labels, code[i:j + 1] if i >= 0 else ''))
+    return out
+
+
+SWIFT_STYLE_VARIANTS = {'rpc': [[]], 'upload': [['input']], 'download': [['overwrite', 'destination'], []]}
+
+
+def swift_expected_funcs(m, ns):
+    """[(function name, parameter labels, route object)] for the routes of ns the Swift client must offer;
+    None when a route argument is of a kind whose rendering is not modelled here."""
+    exp = []
+    for r in ns.defs:
+        if r.kind != 'route' or not valid_for_client(r):
+            continue
+        nm = camel(r.name + ('' if r.version == 1 else '_v%d' % r.version))
+        rt, nullable = m.resolve_alias(r.arg)
+        if rt.kind == 'ref' and not nullable:
+            d = m.lookup(rt.ns, rt.name)
+            if d.kind == 'struct':
+                own = [f for s_ in m.chain(d) for f in m.own_fields(s_)]
+                req = [f for f in own if f.default is None and not m.is_nullable(f.type)]
+                args = [camel(f.name) for f in req + [f for f in own if f not in req]]
+            else:
+                args = [camel(d.name)]
+        elif rt.kind == 'prim' and rt.name == 'Void' and not nullable:
+            args = []
+        else:
+            args = ['request']
+        for extra in SWIFT_STYLE_VARIANTS[route_style(r)]:
+            exp.append((nm, args + extra, '%s.%s' % (pascal(ns.name), nm)))
+    return exp
+
+
 def check_swift_types(res, m, texts, replay, cfg='swift_types'):
     alias_names = {(d.ns, d.name) for d in m.defs('alias')}
     for ns in m.namespaces:
@@ -214,21 +295,7 @@ def check_swift_types(res, m, texts, replay, cfg='swift_types'):
                 nm = camel(r.name + ('' if r.version == 1 else '_v%d' % r.version))
                 expect_once(res, replay, cfg, 'route_object', r'^\s*static let %s = Route\(' % nm, text,
                             {'route': r.name, 'version': r.version}, 'v%d' % r.version)
-        # every Namespace.Name in code must be declared in that namespace
-        declared = {}
-        for ns2 in m.namespaces:
-            names = set()
-            for d in types_with_fields(m, ns2):
-                names.add(d.name)
-                names.add(d.name + 'Serializer')
-            declared[pascal(ns2.name)] = names
-        for nscls2, name in set(re.findall(r'\b([A-Z]\w*)\.([A-Z]\w*)\b', text)):
-            if nscls2 in declared and name not in declared[nscls2]:
-                is_alias = any(pascal(a[0]) == nscls2 and (name == a[1] or name == a[1] + 'Serializer')
-                               for a in alias_names)
-                res.violation({'kind': 'undeclared_user_type_name', 'backend': cfg,
-                               'what': 'alias_name' if is_alias else 'other'},
-                              {'file': fn, 'name': '%s.%s' % (nscls2, name)}, replay)
+        swift_qualified_names_declared(res, m, text, fn, cfg, replay)
 
 
 def _block_after(text, pattern):
@@ -310,6 +377,21 @@ def check_swift_client(res, m, texts, replay):
                               {'route': r.name, 'version': r.version, 'count': k, 'expected': exp}, replay)
             else:
                 res.see(cfg, 'route_function', route_style(r), 'v%d' % r.version)
+        swift_qualified_names_declared(res, m, text, fn, cfg, replay)
+        # every function: parameter labels (argument fields, then the style's extra arguments) and the
+        # route object it sends
+        want = sorted((n_, tuple(a_), o_) for n_, a_, o_ in swift_expected_funcs(m, ns))
+        have = []
+        for name, labels, body in swift_funcs(text):
+            mo = re.search(r'let route = (\w+\.\w+)', body)
+            have.append((name, tuple(labels), mo.group(1) if mo else None))
+        res.count('swift_client_functions_checked', len(want))
+        if sorted(have) != want:
+            res.violation({'kind': 'client_functions_differ', 'backend': cfg},
+                          {'file': fn, 'missing': [x for x in want if x not in have][:3],
+                           'surplus': [x for x in have if x not in want][:3]}, replay)
+        else:
+            res.see(cfg, 'functions_match', min(len(want), 5))
 
 
 def check_swift_client_objc(res, m, texts, replay):
